@@ -245,6 +245,48 @@ def sequences(depth):
     return out
 
 
+def segment_lists(maxseg):
+    """every list of at most 3 sub-segments, each of length 1..3 over nibbles {1, 2}: covers duplicates, nesting at
+    every pair of positions and lists with three distinct lengths"""
+    segs = [t for n in (1, 2, 3) for t in itertools.product((1, 2), repeat=n)]
+    out = [()]
+    for n in range(1, maxseg + 1):
+        out.extend(itertools.product(segs, repeat=n))
+    return out
+
+
+def _validation_work(chunk):
+    p = Partial()
+    for S in chunk:
+        p.evaluations += 1
+        for prefix in ((), (5,)):
+            f = HexaryTrieFog()
+            U = {()}
+            if prefix:
+                f = f.explore((), (prefix,))
+                U = {prefix}
+            want = model_explore(U, prefix, S)
+            try:
+                g = f.explore(prefix, S)
+                oc = "ok"
+            except EthValidationError:
+                oc = "refused"
+            except Exception as e:
+                p.violation("explore(%r, %r) raised %s: %s" % (prefix, S, type(e).__name__, e),
+                            {"driver": "fogb", "explore_only": [list(prefix), [list(x) for x in S]]})
+                continue
+            p.sig("explore-validation", len(S), tuple(sorted({len(x) for x in S})), oc)
+            if (want is None) != (oc == "refused"):
+                p.violation("explore(%r, %r) on a fog with unexplored {%r}: %s, but the call %s"
+                            % (prefix, S, prefix, "must be refused (duplicate / nested sub-segments)" if want is None
+                               else "is valid", "was accepted" if oc == "ok" else "was refused"),
+                            {"driver": "fogb", "explore_only": [list(prefix), [list(x) for x in S]]})
+            elif want is not None and set(snapshot(g)) != want:
+                p.violation("explore(%r, %r): unexplored set %r, expected %r" % (prefix, S, snapshot(g), sorted(want)),
+                            {"driver": "fogb", "explore_only": [list(prefix), [list(x) for x in S]]})
+    return p
+
+
 def run(prop, tier, seed):
     depth = 3
     maxlen = 4 if tier == "thorough" else 3
@@ -252,7 +294,12 @@ def run(prop, tier, seed):
     if tier != "thorough":
         seqs = [s for i, s in enumerate(seqs) if len(s) < 3 or i % 4 == seed % 4]
     total = run_chunks(_work, seqs, (maxlen,))
-    return total, ["%d action sequences of depth <=%d over 44 actions (explore of the 1st/2nd/3rd unexplored prefix, of a "
+    lists = segment_lists(3)
+    total.merge(run_chunks(_validation_work, lists))
+    return total, ["explore() argument validation: all %d lists of <=3 sub-segments of length 1..3 over nibbles {1,2} "
+                   "(duplicates, nesting at every pair of positions, three distinct lengths), on a fresh fog and below "
+                   "a one-nibble prefix, against the set model" % len(lists),
+                   "%d action sequences of depth <=%d over 44 actions (explore of the 1st/2nd/3rd unexplored prefix, of a "
                    "non-member and of a prefix below a member, with 8 sub-segment shapes: leaf, extension, branch, mixed, "
                    "duplicate, nested; mark_all_complete incl. duplicates and non-members)%s; after every action: set "
                    "model, antichain, receiver unmodified, is_complete; at the end serialize/deserialize, __eq__, and "
@@ -262,5 +309,9 @@ def run(prop, tier, seed):
 
 
 def replay(case):
+    if "explore_only" in case:
+        prefix, S = tuple(case["explore_only"][0]), tuple(tuple(x) for x in case["explore_only"][1])
+        p = _validation_work([S])
+        return p.violations[0]["what"] if p.violations else None
     seq = [tuple(tuple(x) if isinstance(x, list) else x for x in a) for a in case["seq"]]
     return check_sequence(seq, all_keys(case["maxlen"]))[0]
